@@ -4,6 +4,7 @@ import Driver.Beh
 import Driver.Pyg
 import Driver.Lit
 import Driver.Ssbs
+import Driver.Macro
 open Lean Drv
 
 /-- dispatch on the prefix of "op" -/
@@ -16,6 +17,7 @@ def dispatch (j : Json) : R Json := do
   | "pyg" => PygD.handle op j
   | "lit" => LitD.handle op j
   | "ssbs" => SsbsD.handle op j
+  | "macro" => MacroD.handle op j
   | _ => throw s!"unknown op {op}"
 
 partial def loop (h : IO.FS.Stream) (out : IO.FS.Stream) : IO Unit := do
